@@ -24,11 +24,30 @@ pub struct Item {
     pub asset: usize,
 }
 
+/// Environment configuration a batch is run under
+#[derive(Clone, Copy, Debug, PartialEq, Eq)]
+pub struct Setup {
+    pub step_size: u64,
+    /// 0 = trading on, 1 = constructed with trading off, 2 = switched off after the set-up step
+    pub trading: u8,
+}
+
+pub const DEFAULT_SETUP: Setup = Setup { step_size: 100_000, trading: 0 };
+
+fn setup_json(s: &Setup) -> serde_json::Value {
+    let tr = ["on", "off at construction", "disabled after the set-up step"][s.trading as usize];
+    json!({"step_size": s.step_size, "trading": tr})
+}
+
 /// Run one batch through a real environment step under `rng`; returns the processing order
 /// (`order[pos]` = index of the batch item processed at position pos) and the draws consumed.
 pub fn run_batch<const A: usize>(multi: bool, items: &[Item], script: &[Ans], seed: u64) -> Result<(Vec<usize>, u64, u64), String> {
+    run_batch_in::<A>(DEFAULT_SETUP, multi, items, script, seed)
+}
+
+pub fn run_batch_in<const A: usize>(su: Setup, multi: bool, items: &[Item], script: &[Ans], seed: u64) -> Result<(Vec<usize>, u64, u64), String> {
     let ticks = vec![1u32; A];
-    let mut env = AnyEnv::<A, 3>::make(multi, 0, &ticks, 100_000, true);
+    let mut env = AnyEnv::<A, 3>::make(multi, 0, &ticks, su.step_size, su.trading != 1);
     // resting targets and a deep ask quote per asset
     let mut targets: Vec<Option<(usize, usize)>> = vec![None; items.len()];
     for a in 0..A {
@@ -42,6 +61,9 @@ pub fn run_batch<const A: usize>(multi: bool, items: &[Item], script: &[Ans], se
     }
     let mut pre = ScriptRng::new(vec![], 4242);
     env.step(&mut pre);
+    if su.trading == 2 {
+        env.disable();
+    }
     let start = env.book(0).get_time();
     let mut ids: Vec<Option<(usize, usize)>> = vec![None; items.len()];
     for (i, it) in items.iter().enumerate() {
@@ -118,6 +140,10 @@ fn script_json(s: &[Ans]) -> serde_json::Value {
 
 /// exact part (a)/(d): all index scripts for limit-only batches of size n
 fn exact_small<const A: usize>(acc: &Acc, multi: bool, n: usize, out_summary: &mut Vec<serde_json::Value>) -> bool {
+    exact_small_in::<A>(acc, DEFAULT_SETUP, multi, n, out_summary)
+}
+
+fn exact_small_in<const A: usize>(acc: &Acc, su: Setup, multi: bool, n: usize, out_summary: &mut Vec<serde_json::Value>) -> bool {
     let scripts = all_index_scripts(n);
     let items: Vec<Item> = (0..n).map(|i| Item { kind: Kind::Limit, asset: i % A }).collect();
     let mut perms: BTreeSet<Vec<usize>> = BTreeSet::new();
@@ -125,15 +151,15 @@ fn exact_small<const A: usize>(acc: &Acc, multi: bool, n: usize, out_summary: &m
     let mut draws_set: BTreeSet<u64> = BTreeSet::new();
     for s in &scripts {
         acc.execs.fetch_add(2, Ordering::Relaxed);
-        let r1 = util::subject(|| run_batch::<A>(multi, &items, s, 1)).unwrap_or_else(Err);
-        let r2 = util::subject(|| run_batch::<A>(multi, &items, s, 1)).unwrap_or_else(Err);
+        let r1 = util::subject(|| run_batch_in::<A>(su, multi, &items, s, 1)).unwrap_or_else(Err);
+        let r2 = util::subject(|| run_batch_in::<A>(su, multi, &items, s, 1)).unwrap_or_else(Err);
         match (&r1, &r2) {
             (Ok(a), Ok(b)) => {
                 if a != b {
                     acc.fail(
                         "same-generator-different-order",
                         format!("the same scripted generator gave processing order {:?} and then {:?}", a.0, b.0),
-                        json!({"n": n, "multi": multi, "script": script_json(s)}),
+                        json!({"n": n, "multi": multi, "script": script_json(s), "setup": setup_json(&su)}),
                     );
                 }
                 let (lib, lib_draws) = rand_shuffle_order(n, s, 1);
@@ -147,7 +173,7 @@ fn exact_small<const A: usize>(acc: &Acc, multi: bool, n: usize, out_summary: &m
                 acc.fail(
                     "invalid-processing-positions",
                     e.clone(),
-                    json!({"n": n, "multi": multi, "script": script_json(s)}),
+                    json!({"n": n, "multi": multi, "script": script_json(s), "setup": setup_json(&su)}),
                 );
                 return false;
             }
@@ -157,8 +183,15 @@ fn exact_small<const A: usize>(acc: &Acc, multi: bool, n: usize, out_summary: &m
     out_summary.push(json!({
         "n": n, "multi_asset": multi, "assets": A, "scripts": scripts.len(), "distinct_processing_orders": perms.len(),
         "n_factorial": fact(n).to_string(), "draws_per_step": draws_set.iter().collect::<Vec<_>>(),
-        "identical_to_library_shuffle": equals_library, "bijection_onto_Sn": bijection,
+        "identical_to_library_shuffle": equals_library, "bijection_onto_Sn": bijection, "setup": setup_json(&su),
     }));
+    if su != DEFAULT_SETUP && !(equals_library && bijection) {
+        acc.fail(
+            "order-depends-on-environment-configuration",
+            format!("with {:?} the {} index scripts for a batch of {} give {} distinct processing orders (identical to the library shuffle: {})", su, scripts.len(), n, perms.len(), equals_library),
+            json!({"n": n, "multi": multi, "setup": setup_json(&su)}),
+        );
+    }
     equals_library || bijection
 }
 
@@ -309,12 +342,17 @@ fn large<const A: usize>(acc: &Acc, multi: bool, n: usize, max_dev: usize, summa
 
 /// (c) the position permutation depends on the script only: not on kinds, assets, submission order
 fn content_independence<const A: usize>(acc: &Acc, multi: bool, n: usize, summary: &mut Vec<serde_json::Value>) {
-    let kinds = [Kind::Limit, Kind::Market, Kind::Cancel, Kind::Modify];
+    content_independence_in::<A>(acc, DEFAULT_SETUP, multi, n, summary)
+}
+
+fn content_independence_in<const A: usize>(acc: &Acc, su: Setup, multi: bool, n: usize, summary: &mut Vec<serde_json::Value>) {
+    // (a re-pricing modify is observed through the trade it causes: only with trading on)
+    let kinds: Vec<Kind> = if su.trading == 0 { vec![Kind::Limit, Kind::Market, Kind::Cancel, Kind::Modify] } else { vec![Kind::Limit, Kind::Market, Kind::Cancel] };
     let mut words: Vec<Vec<Item>> = vec![vec![]];
     for _ in 0..n {
         let mut next = Vec::new();
         for w in &words {
-            for k in kinds {
+            for &k in &kinds {
                 for a in 0..A {
                     let mut w2 = w.clone();
                     w2.push(Item { kind: k, asset: a });
@@ -329,7 +367,7 @@ fn content_independence<const A: usize>(acc: &Acc, multi: bool, n: usize, summar
     let base: Vec<Item> = (0..n).map(|_| Item { kind: Kind::Limit, asset: 0 }).collect();
     let mut expected: Vec<(Vec<usize>, u64)> = Vec::new();
     for s in &scripts {
-        match util::subject(|| run_batch::<A>(multi, &base, s, 1)).unwrap_or_else(Err) {
+        match util::subject(|| run_batch_in::<A>(DEFAULT_SETUP, multi, &base, s, 1)).unwrap_or_else(Err) {
             Ok((o, d, _)) => expected.push((o, d)),
             Err(e) => {
                 acc.fail("invalid-processing-positions", e, json!({"n": n, "multi": multi, "script": script_json(s)}));
@@ -348,7 +386,7 @@ fn content_independence<const A: usize>(acc: &Acc, multi: bool, n: usize, summar
                 let w = &words[i];
                 for (si, s) in scripts.iter().enumerate() {
                     acc.execs.fetch_add(1, Ordering::Relaxed);
-                    match util::subject(|| run_batch::<A>(multi, w, s, 1)).unwrap_or_else(Err) {
+                    match util::subject(|| run_batch_in::<A>(su, multi, w, s, 1)).unwrap_or_else(Err) {
                         Ok((o, d, _)) => {
                             if o != expected[si].0 {
                                 let assets_differ = w.iter().any(|it| it.asset != 0);
@@ -375,7 +413,7 @@ fn content_independence<const A: usize>(acc: &Acc, multi: bool, n: usize, summar
             });
         }
     });
-    summary.push(json!({"n": n, "multi_asset": multi, "assets": A, "batch_contents": words.len(), "scripts_each": scripts.len()}));
+    summary.push(json!({"n": n, "multi_asset": multi, "assets": A, "batch_contents": words.len(), "scripts_each": scripts.len(), "setup": setup_json(&su)}));
 }
 
 pub fn c15(tier: &str) -> i32 {
@@ -415,6 +453,27 @@ pub fn c15(tier: &str) -> i32 {
     content_independence::<2>(&acc, true, 3, &mut content);
     content_independence::<3>(&acc, true, if t { 4 } else { 3 }, &mut content);
     content_independence::<2>(&acc, true, 4, &mut content);
+    // the same decision under other environment configurations: batches larger than the step
+    // size (stamps still start+i), trading off from construction, trading switched off later
+    let mut setups = Vec::new();
+    for n in 2..=(if t { 6 } else { 5 }) {
+        for su in [
+            Setup { step_size: 1, trading: 0 },
+            Setup { step_size: (n - 1) as u64, trading: 0 },
+            Setup { step_size: n as u64, trading: 0 },
+            Setup { step_size: 100_000, trading: 1 },
+            Setup { step_size: 100_000, trading: 2 },
+            Setup { step_size: 2, trading: 2 },
+        ] {
+            exact_small_in::<1>(&acc, su, false, n, &mut setups);
+            exact_small_in::<2>(&acc, su, true, n, &mut setups);
+        }
+    }
+    for su in [Setup { step_size: 2, trading: 0 }, Setup { step_size: 100_000, trading: 1 }, Setup { step_size: 100_000, trading: 2 }] {
+        content_independence_in::<1>(&acc, su, false, 3, &mut content);
+        content_independence_in::<2>(&acc, su, true, 3, &mut content);
+    }
+    out.set("other_environment_configurations", json!(setups));
     let execs = acc.execs.load(Ordering::Relaxed);
     out.set("states", json!(execs));
     out.set("transitions", json!(execs));
